@@ -95,7 +95,14 @@ func (d *Decls) typeKey(t types.Type) string {
 	case *types.Alias:
 		return d.typeKey(types.Unalias(t))
 	case *types.Basic:
-		return "b_" + mangle(u.Name()) // one key per Go type: int and int64 box to different dynamic types
+		name := u.Name()
+		switch u.Kind() { // byte and rune are aliases: the same type as uint8 / int32
+		case types.Uint8:
+			name = "uint8"
+		case types.Int32:
+			name = "int32"
+		}
+		return "b_" + mangle(name) // one key per Go type: int and int64 box to different dynamic types
 	case *types.Pointer:
 		return "p_" + d.typeKey(u.Elem())
 	case *types.Slice:
